@@ -26,8 +26,9 @@ loop and runs (K): `decideLoop_spec`, `process_ok`, `process_accepts_iff`, `fram
 ## Not proved
 
 * Seals / several epochs (`decideLoop` with a non-empty seal list, `Inst.fresh` of the next epoch).
-* The `events` field of a block (newly confirmed ancestry, `sortNat`) — see part M if present.
+* The `events` field of a block (newly confirmed ancestry, `sortNat`) is part M (`reference_delivered`).
 * The index → validator-id map of the cheater list is the reference's own `idOf`.
+* Uniqueness of protocol numbers is not assumed anywhere (blocks are tied to positions).
 -/
 namespace RefEquiv
 open Spec.Lachesis VecProofs ElectionRules OrdererProofs Model.Pos Model.Election Model.Orderer
